@@ -60,6 +60,7 @@ type job struct {
 	Current  string `json:"current"`
 	Deadline int64  `json:"deadline_unix,omitempty"`
 	DumpHist bool   `json:"dump_hist,omitempty"`
+	Build    string `json:"build,omitempty"`
 }
 
 type finding struct {
@@ -143,12 +144,13 @@ func buildWorker(variant string) (string, error) {
 		defer func() { syscall.Flock(int(lf.Fd()), syscall.LOCK_UN); lf.Close() }()
 	}
 	out := filepath.Join(binDir, "worker."+variant+".test")
-	args := []string{"test", "-c", "-tags", "verif", "-vet=off", "-o", out}
+	tags := "verif"
+	var extra []string
 	dir := simDir
 	switch variant {
 	case "plain":
 	case "race":
-		args = append(args, "-race")
+		extra = append(extra, "-race")
 	case "yield":
 		// instrumented scratch copy of /repo (yield points in the loader)
 		d, mod, err := makeYieldCopy()
@@ -156,10 +158,12 @@ func buildWorker(variant string) (string, error) {
 			return "", err
 		}
 		defer os.RemoveAll(d)
-		args = append(args, "-modfile", mod, "-tags", "verif,yield")
+		extra = append(extra, "-modfile", mod)
+		tags = "verif,yield"
 	default:
 		return "", fmt.Errorf("unknown variant %q", variant)
 	}
+	args := append([]string{"test", "-c", "-tags", tags, "-vet=off", "-o", out}, extra...)
 	args = append(args, "./worker")
 	cmd := exec.Command("go1.26.8", args...)
 	cmd.Dir = dir
@@ -220,6 +224,24 @@ func runWorker(bin string, j job, gomaxprocs int, extraEnv ...string) workerResu
 
 // runPlan executes one explicit plan in a fresh worker process.
 func runPlan(bin string, p *plan.Plan, dir string, tag string, dump bool) (rec *runRecord, died bool, stderr string) {
+	// The schedule of a plan replays exactly; a race *report*, however, is produced by the
+	// race detector, whose shadow-memory eviction is not under the simulator's control:
+	// race-build plans are therefore tried several times and count as reproduced when any
+	// attempt reports.
+	tries := 1
+	if p.Build == "race" {
+		tries = 8
+	}
+	for i := 0; i < tries; i++ {
+		rec, died, stderr = runPlanOnce(bin, p, dir, tag, dump)
+		if died || (rec != nil && len(rec.Violations) > 0) {
+			return
+		}
+	}
+	return
+}
+
+func runPlanOnce(bin string, p *plan.Plan, dir string, tag string, dump bool) (rec *runRecord, died bool, stderr string) {
 	pf := filepath.Join(dir, "plan-"+tag+".json")
 	b, _ := json.Marshal(p)
 	os.WriteFile(pf, b, 0o644)
@@ -368,14 +390,24 @@ func check(prop string, args []string) int {
 		wg.Add(1)
 		go func(w int) {
 			defer wg.Done()
+			// with several build variants the workers are split among them; each executes
+			// only the plans generated for its variant
+			variant := variants[w%len(variants)]
 			from := w
 			for time.Now().Before(deadline) && from < cfg.maxRuns {
 				j := job{Property: prop, Seed: seed, Tier: *tier, From: from, To: cfg.maxRuns, Stride: workers,
 					Out: filepath.Join(dir, fmt.Sprintf("out-%d.jsonl", w)), Current: filepath.Join(dir, fmt.Sprintf("cur-%d.json", w)),
 					Deadline: deadline.Unix()}
-				bin := bins[variants[0]]
+				if len(variants) > 1 {
+					j.Build = variant
+					j.From, j.Stride = from/len(variants), workers/len(variants)
+					if j.Stride < 1 {
+						j.Stride = 1
+					}
+				}
+				bin := bins[variant]
 				env := []string{}
-				if variants[0] == "race" {
+				if variant == "race" {
 					env = append(env, "GORACE=halt_on_error=1")
 				}
 				res := runWorker(bin, j, 1, env...)
@@ -483,7 +515,16 @@ func check(prop string, args []string) int {
 			p = plan.Generate(prop, seed, f.run, *tier)
 		}
 		bin := bins[variants[0]]
+		if b, ok := bins[p.Build]; ok {
+			bin = b
+		}
 		min, ok := minimise(bin, p, f.v, dir)
+		if !ok && strings.Contains(f.v.Class, "data-race") {
+			// the race detector reported it in the batch; it did not report again on replay
+			// (see runPlan): keep the unminimised plan and the original report
+			min, ok = p, true
+			f.v.Detail += " (reported by the race detector in the batch run; the replay did not report it again within 8 attempts)"
+		}
 		if !ok {
 			fmt.Fprintf(os.Stderr, "vcheck: violation %s of run %d did not reproduce in a fresh process (harness nondeterminism)\n", s, f.run)
 			return 2
@@ -529,7 +570,7 @@ func sanitize(s string) string {
 func variantsOf(prop, tier string) []string {
 	switch prop {
 	case "C15":
-		return []string{"race"}
+		return []string{"race", "yield"}
 	}
 	return []string{"plain"}
 }
@@ -585,11 +626,16 @@ func minimise(bin string, p *plan.Plan, want violation, dir string) (*plan.Plan,
 	}
 	cur := p
 	attempts := 0
+	maxAttempts := 400
 	deadline := time.Now().Add(90 * time.Second)
-	for progress := true; progress && attempts < 400 && time.Now().Before(deadline); {
+	if p.Build == "race" {
+		maxAttempts = 40
+		deadline = time.Now().Add(45 * time.Second)
+	}
+	for progress := true; progress && attempts < maxAttempts && time.Now().Before(deadline); {
 		progress = false
 		for _, cand := range plan.Candidates(cur) {
-			if attempts >= 400 || time.Now().After(deadline) {
+			if attempts >= maxAttempts || time.Now().After(deadline) {
 				break
 			}
 			if cand.Size() >= cur.Size() {
@@ -714,22 +760,22 @@ func writeEvidence(prop, tier string, seed uint64, all []runRecord, deaths, nVio
 			"distinct_nontrivial": len(nontrivSigs),
 			"rule": "one evaluation = one simulated run (scenario + tape derived from VERIF_SEED and the run index) of the real code inside a testing/synctest bubble; " +
 				"distinct = distinct history signatures (hash of the sequence of history events: kind, connection, bucketed size); non-trivial = the run had >= 2 connections, or >= 1 injected fault fired, or >= 8 scheduler steps. " + meta.rule,
-			"samples":                  samples,
-			"distinct_histories":       len(sigs),
-			"runs_per_hour":            int64(perHour),
-			"seeds_per_hour":           int64(perHour),
-			"simulated_seconds":        float64(simNs) / 1e9,
-			"scheduler_steps":          steps,
-			"history_events":           events,
-			"faults_fired":             faults,
-			"probes":                   probes,
-			"families":                 fam,
-			"worker_deaths":            deaths,
-			"known_findings_reported":  nKnown,
-			"workers":                  workers,
-			"builds":                   variants,
-			"real_components":          meta.realParts,
-			"stubbed_components":       []string{"listener", "connections (byte streams, deadlines, close/reset)", "clock (testing/synctest fake clock)", "logger backend", "accounting sink", "bcrypt keychain backend", "config source/file watcher", "peers (independent RFC 8907 model clients/servers)"},
+			"samples":                 samples,
+			"distinct_histories":      len(sigs),
+			"runs_per_hour":           int64(perHour),
+			"seeds_per_hour":          int64(perHour),
+			"simulated_seconds":       float64(simNs) / 1e9,
+			"scheduler_steps":         steps,
+			"history_events":          events,
+			"faults_fired":            faults,
+			"probes":                  probes,
+			"families":                fam,
+			"worker_deaths":           deaths,
+			"known_findings_reported": nKnown,
+			"workers":                 workers,
+			"builds":                  variants,
+			"real_components":         meta.realParts,
+			"stubbed_components":      []string{"listener", "connections (byte streams, deadlines, close/reset)", "clock (testing/synctest fake clock)", "logger backend", "accounting sink", "bcrypt keychain backend", "config source/file watcher", "peers (independent RFC 8907 model clients/servers)"},
 		},
 		"assumptions": append([]string{
 			"std/runtime are go1.26.8's (testing/synctest); the repository's baseline suite runs on the default toolchain",
